@@ -4,13 +4,83 @@ import json, os, subprocess
 ROOT = os.path.dirname(os.path.dirname(os.path.abspath(__file__)))
 
 # id -> (technique, level text, level note, design section)
+BOUND = " Bounded exploration: complete only inside the enumerated scope stated in the evidence rule; beyond it the property is sampled, and absence of violations elsewhere is not established."
+
 CLAIMED = {
+ "C01": ("race-detector stress: generated pair/triple/mix scenarios of all public methods, free-running under -race with monitors (race log, panics, sanity calls, watchdog)",
+         "For every lock-guarded container type every ordered pair of public methods (thorough: every triple, hundreds of random 4-8 goroutine mixes) from three initial contents is executed repeatedly under the Go race detector with varied GOMAXPROCS and injected yields; any race report whose access site is in gogu code, any panic, an unusable instance afterwards or a scenario that never finishes is a violation attributed to the scenario that was running. The detector is happens-before based, so one execution of a racing pair suffices; deadlocks and interleaving-dependent panics are only sampled here (the controlled scheduler of C02 enumerates them for small programs)." + BOUND,
+         "Trusts the Go race detector (bounded shadow history, only executed code). Free-running schedules are sampled, not enumerated. Reentrant callbacks are outside the domain.", "3.6, 4 (C01)", "c01"),
+ "C02": ("controlled-scheduler enumeration of all interleavings (stateless DFS at lock granularity over a sync shim applied source-to-source to a scratch copy) + differential linearizability oracle against sequential runs of the same build; rapid for larger programs",
+         "For each container every program of 2x1, 3x1, (2||1) and 2x2 single-element calls (quick: all but a seeded quarter of the 2x2 programs sampled) from three initial states is executed under EVERY schedule at lock-acquisition granularity by a cooperative scheduler that replaces package sync in a scratch copy of the working tree; each execution's results and follow-up observation must equal those of some one-at-a-time order of the same calls that respects real-time precedence; deadlock is a violation. Random larger programs (2-3 threads x 1-3 calls) with random schedules are shrunk by rapid. Complete at that granularity for the enumerated programs because race-free Go programs are sequentially consistent (race freedom is C01)." + BOUND,
+         "Trusts the vsync shim's model of RWMutex (writer preference) and that all shared accesses happen inside critical sections (C01). Library-spawned goroutines (Traverse, cache cleanup) are excluded. Sequential defects cannot mask or pollute the verdict because the oracle is differential.", "3.5, 4 (C02)", "c02"),
+ "C03": ("model-based stateful PBT (multiset + comparator model), bounded-exhaustive sequences + rapid; Sort as permutation/order oracle",
+         "Operation sequences over Push/Pop/Peek/Clear/Convert/Delete/Merge/Meld/FromSlice with three comparators are executed against a multiset model: extremality of Pop/Peek, exact conservation (Size, IsEmpty, GetValues as multiset, Delete results), Merge/Meld/Convert/FromSlice contracts, final drain; Sort checked as ordered permutation. One open known finding (Delete leaves the vacated slot unsifted, pinned by the repository's tests) suspends only order assertions after such a Delete; conservation stays exact." + BOUND,
+         "Trusts the multiset reference model. Known finding heap-delete-unsifted carves out order assertions after a successful Delete of an interior slot.", "4 (C03)", "pbt"),
+ "C04": ("model-based stateful PBT (map + sort model), bounded-exhaustive Upsert/Delete sequences + rapid",
+         "Every Upsert/Delete sequence up to the length bound over keys 0..4 with both comparators, plus long random histories (sorted/reversed/random insertion), is compared with a map model after every step: Get of every key, Delete results, Traverse sequence (each present key once, current value, comparator order) and Size. One open known finding (Delete of an absent key decrements Size, pinned by the repository's Example) suspends only the Size assertion after the first such Delete of a case." + BOUND,
+         "Trusts the map/sort reference model. Known finding bst-delete-absent-size.", "4 (C04)", "pbt"),
+ "C05": ("model-based stateful PBT (slice model), bounded-exhaustive sequences over both queue implementations + rapid drain/refill histories",
+         "Every Enqueue/Dequeue/Clear sequence up to the bound over a 3-value alphabet on both implementations (linked one from its mandatory first element), with complete observation (Size, Peek, Search of every value) and a final drain, against a slice model; long random sequences that drain and refill repeatedly." + BOUND,
+         "Trusts the slice model; int/string elements; zero value reserved for 'empty'.", "4 (C05/C06)", "pbt"),
+ "C06": ("model-based stateful PBT (slice model), bounded-exhaustive sequences over both stack implementations + rapid empty/refill histories",
+         "Every Push/Pop sequence up to the bound (and every sequence of single observer/mutator calls up to a smaller bound) on both implementations against a slice model with complete observation and a fixed epilogue (drain, pops on empty, refill). One open known finding (LStack.Pop returns the element below the removed one, pinned by the repository's Example) suspends only the comparison of LStack.Pop's return value on a non-empty stack." + BOUND,
+         "Trusts the slice model. Known finding lstack-pop-returns-below.", "4 (C05/C06)", "pbt"),
  "C07": ("model-based stateful PBT: bounded-exhaustive operation sequences + rapid random sequences against a recency-list reference model, final drain",
-         "Every operation sequence up to length 4 (thorough: 5) over keys 0..3 (0..4) for every capacity 1..4 is executed against a recency-list model (complete inside that bound), plus thousands of seeded random longer sequences with larger capacities; every return value, Count after every step, a final lookup of every key and a final drain by RemoveOldest are compared. Bounded exploration: nothing is claimed beyond the enumerated scope and the sampled sequences.",
-         "Trusts the reference model (about 60 lines) and the Go toolchain; int keys/values only.", "4 (C07)"),
+         "Every operation sequence up to length 4 (thorough: 5) over keys 0..3 (0..4) for every capacity 1..4 is executed against a recency-list model (complete inside that bound), plus thousands of seeded random longer sequences with larger capacities; every return value, Count after every step, a final lookup of every key and a final drain by RemoveOldest are compared." + BOUND,
+         "Trusts the reference model (about 60 lines) and the Go toolchain; int keys/values only.", "4 (C07)", "pbt"),
+ "C08": ("model-based stateful PBT in virtual time (testing/synctest): deadline-targeted timelines, bounded-exhaustive + rapid, map-with-deadlines model",
+         "Call sequences including Advance-to-{deadline-1ns, deadline, deadline+1ns, next cleanup tick} run inside a synctest bubble, so 'live before the deadline, expired after it' is executed at exact instants for all six default/cleanup configurations; all sequences up to length 3 (thorough 4) over a 50-operation alphabet plus random longer ones against a map-with-deadlines model; Count/List checked after every step. Lenient exactly where the statement is open (the deadline instant itself, expired-but-unpurged entries in Count/List, cleanup within two ticks)." + BOUND,
+         "Trusts Go's synctest fake clock and the model; needs the verif hook cache.VerifStopCleanup to end the cleanup goroutine inside the bubble. Real-timer lateness under load is outside what is asserted.", "3.4, 4 (C08)", "pbt"),
+ "C09": ("model-based PBT (map model) over key sets and queries, bounded-exhaustive + rapid (arbitrary bytes) + native fuzz target",
+         "All small key sets over a 2-letter alphabet in all insertion orders with every query string, plus random key sets of arbitrary bytes (shared prefixes, nested keys, bytes >= 0x80), against a Go map: Get/Contains exactness (no prefixes/extensions), Size, Keys and StartsWith in byte order, LongestPrefix, empty key/prefix/query handling." + BOUND,
+         "Trusts the map model; Put of an empty key is outside the domain.", "4 (C09)", "pbt"),
+ "C10": ("model-based stateful PBT (map model + height bound), bounded-exhaustive Put/Remove/Get sequences, all insertion orders of up to 9-10 keys, long phase histories",
+         "Every Put/Remove/Get sequence up to the bound over keys 0..5 from three preset prefixes, every permutation of up to 9 (10) keys, and 100-1500-key histories in sorted/reversed/shuffled/zigzag order are checked against a map model: Get, Size, IsEmpty, ascending Traverse and the stated height bound after every operation." + BOUND,
+         "Trusts the map model; int keys.", "4 (C10)", "pbt"),
+ "C11": ("differential PBT against quadratic reference implementations written from the statement, bounded-exhaustive tuples of small slices and nestings + rapid",
+         "All slices up to the bound over a small alphabet, all tuples of 1..3 slices, all nestings up to depth 3 (incl. malformed ones) and a finite family of key functions are compared with independent quadratic references; unordered results as sets; By-variants by their defining subsequence/qualification property." + BOUND,
+         "Trusts the quadratic references; no NaN floats.", "4 (C11)", "pbt"),
+ "C12": ("metamorphic/identity PBT (concatenation, partition, permutation, transpose, involution identities; callback visit logs), bounded-exhaustive + rapid + native fuzz target",
+         "All small slices with every chunk size, drop count, predicate/key from a finite family, square matrices and nestings are checked by the conservation identities of the statement; documented panics count as rejection." + BOUND,
+         "Trusts the identities as executable readings of the statement.", "4 (C12)", "pbt"),
+ "C13": ("definitional-oracle PBT (defining inequalities / quantifier references / closed-form Range reference), bounded-exhaustive incl. all int8 triples + rapid",
+         "All small slices with every probe and index window, all int8 triples for Clamp/InRange/Abs, all (start,step,end) in [-10,10]^3 and the shorter/longer argument forms for Range, across several element types, against definitional references; panics inside the documented domain are violations." + BOUND,
+         "Trusts the references; documented domain restrictions (no NaN, no overflow, Abs of the type minimum, non-empty Mean) stated in the rule.", "4 (C13)", "pbt"),
+ "C14": ("reference-model PBT over maps with set/defining-property comparison, each case executed under several map iteration orders, bounded-exhaustive + rapid",
+         "All maps with up to 4 entries over 4 keys x 3 values, key lists and predicates from a finite family, and small collections of maps are checked against references; unordered or free choices by their defining property; each case runs several times because Go randomises map iteration." + BOUND,
+         "Trusts the references.", "4 (C14)", "pbt"),
+ "C15": ("byte-level reference + round-trip PBT, bounded-exhaustive strings/offsets/tokens + rapid + native fuzz target",
+         "All strings up to 5 (6) symbols over an alphabet mixing ASCII, multi-byte runes and token characters with every offset/length/index/size in a window around the length plus the int extremes are compared with a byte-level PHP-rule Substr reference, split/pad/wrap identities and Unicode case mapping; case styles by the clauses the statement lists." + BOUND,
+         "Trusts the references; empty pad token and invalid UTF-8 for rune helpers are outside the domain.", "4 (C15)", "pbt"),
+ "C16": ("snapshot-differential PBT: deep snapshots incl. capacity region and sentinels before/after every helper call and call pair over a registry of all exported helpers",
+         "92 call forms of every exported slice/map helper run on arguments placed in backing arrays with spare capacity and sentinels; all single calls and all ordered pairs sharing an argument are enumerated over a small input scope: arguments must be unchanged (in-place helpers: only their documented argument, never beyond len) and earlier results must not be altered by later calls." + BOUND,
+         "Aliasing is judged by observable alteration only (no pointer comparison); strings are immutable in Go, so string helpers are vacuous here.", "4 (C16)", "pbt"),
+ "C17": ("timeline PBT in virtual time (synctest) with exact-instant oracle; free-running sub-check with in-flight counters",
+         "Generated call timelines (1-16 callers, 1-3 keys, latencies 0/3/21ms, value/error outcomes, expiry none/40ms) run in a synctest bubble; single flight, provenance of every result, join semantics, cache-hit semantics, error non-caching and key isolation are decided on exact virtual instants, leniently at coinciding instants; every timeline of up to 3 (4) calls is enumerated. A free-running sub-check hammers the API with real goroutines (race-built in the thorough tier)." + BOUND,
+         "Trusts synctest's fake clock; the oracle models which results are actually cached (documented in DESIGN).", "4 (C17)", "pbt"),
+ "C18": ("exhaustive small-scope PBT with counting callbacks; RetryWithDelay in virtual time",
+         "n in -2..8 x calls 0..12 x every success/failure pattern up to length 8 (the quantifier's full scope) is enumerated for After/Before/Once/Retry/RetryWithDelay with counting callbacks returning fresh values; delays are measured in a synctest bubble." + BOUND,
+         "Trusts synctest's fake clock for the delay lower bound.", "4 (C18)", "pbt"),
+ "C19": ("model-based stateful PBT (slice model) over both list types with bounded Each, bounded-exhaustive + rapid, fixed closing script",
+         "Every operation sequence up to length 5 (thorough 6-7) on SList and DList with node handles taken from Find immediately before use, against a slice model observed through a bounded Each, First/Last and Find after every call, followed by a closing script that edits next to every node (stale links only show on later edits)." + BOUND,
+         "Trusts the slice model; distinct non-zero values; nil handle only for the inserts.", "4 (C19)", "pbt"),
+ "C20": ("timeline PBT in virtual time (synctest): delay, debounce and throttle event sequences with exact-instant oracles, bounded-exhaustive + rapid",
+         "Delay/Stop placements, debounce bursts (single and simultaneous callers, cancel) and throttle Call/Next/Cancel arrangements with 1-3 consumer goroutines run in a synctest bubble; never-early, at-most-once-per-burst, cancel, liveness, one-permission-per-period, trailing-only-when-configured and prompt-Cancel are decided on exact instants, leniently when two events coincide." + BOUND,
+         "Trusts synctest's fake clock and that sync.Cond.Wait is durably blocking in a bubble; real-timer lateness is outside what is asserted.", "4 (C20)", "pbt"),
 }
 
+import os as _os
+# a property is only claimed once its check exists on disk
+def _exists(pid):
+    root = _os.path.dirname(_os.path.dirname(_os.path.abspath(__file__)))
+    if pid == "C01":
+        return _os.path.exists(_os.path.join(root, "harness/conc/stress/stress_test.go"))
+    if pid == "C02":
+        return _os.path.exists(_os.path.join(root, "harness/conc/lin/lin_test.go"))
+    return _os.path.exists(_os.path.join(root, "harness/props/c%s/c%s_test.go" % (pid[1:], pid[1:])))
+
 NOT_YET = {}
+HOLD = set(l.strip() for l in open(_os.path.join(_os.path.dirname(_os.path.abspath(__file__)), "hold.txt")) if l.strip()) if _os.path.exists(_os.path.join(_os.path.dirname(_os.path.abspath(__file__)), "hold.txt")) else set()
 
 def main():
     props = [json.loads(l) for l in open(os.path.join(ROOT, "properties.jsonl"))]
@@ -18,14 +88,14 @@ def main():
     na = []
     for p in props:
         pid = p["id"]
-        if pid in CLAIMED:
-            tech, text, note, ref = CLAIMED[pid]
+        if pid in CLAIMED and pid not in HOLD and _exists(pid):
+            tech, text, note, ref, eng = CLAIMED[pid]
             checks.append(dict(property_id=pid,
                                quick_cmd="./check %s quick" % pid,
                                thorough_cmd="./check %s thorough" % pid,
                                evidence_file="evidence/%s.json" % pid,
                                replay_cmd_template="./check %s --replay {path}" % pid,
-                               engine="pbt",
+                               engine=eng,
                                level_claimed=dict(category="exploration", text=text, design_ref="DESIGN.md section " + ref),
                                level_note=note, technique=tech))
         else:
@@ -39,7 +109,9 @@ def main():
                hooks=dict(guard="verif", enable="go test -tags verif (every harness build passes -tags verif)",
                           baseline_off_cmd="cd /repo && GOFLAGS=-mod=mod go test -vet=off -count=1 ./...",
                           source_commits=hooks_commits, add_only=True),
-               engines=[dict(name="pbt", path="harness/pbt", serves_properties=sorted(CLAIMED),
+               engines=[dict(name="c01", path="harness/conc/stress + engines/c01.py", serves_properties=["C01"], kind_free_text="race-detector stress driver: scenario generation through the pbt core, binary built with -race, race reports read from the detector's log after every scenario and attributed by access site"),
+                        dict(name="c02", path="harness/conc/vsync + harness/conc/rewrite + harness/conc/lin + engines/c02.py", serves_properties=["C02"], kind_free_text="controlled cooperative scheduler behind a drop-in sync shim, applied source-to-source to a scratch copy of the working tree on every run; stateless DFS over schedules; differential linearizability oracle"),
+                        dict(name="pbt", path="harness/pbt", serves_properties=sorted(p for p in CLAIMED if p not in ("C01", "C02")),
                              kind_free_text="property-based testing core: one generator interface driven by a bounded-exhaustive odometer, pgregory.net/rapid (random + shrinking) and a replay corpus; explicit reference-model / metamorphic / differential oracles per property; python driver ./check shards runs over 16 processes and merges evidence")],
                checks=checks,
                notes="All checks: ./check <ID> quick|thorough, VERIF_SEED honoured, exit 0/1/2 (2 = inconclusive). Known findings: KNOWN_FINDINGS.txt. See DESIGN.md.",
